@@ -144,11 +144,15 @@ def build(spec: dict):
         if ds.get("dims_order", "mg") == "mg":
             da = xr.DataArray(arr, coords=coords, dims=("model", "global"))
         else:
-            da = xr.DataArray(arr.T, coords=coords, dims=("global", "model"))
+            # stored (global, model): as loaded from a file (C-contiguous, own buffer) or as a transposed view of a
+            # (model, global) array — both occur in practice and differ in what `.T` / `asfortranarray` copy
+            # (seeded changes C03-3 / C10-1: the provider multiplied the weight into the caller's buffer)
+            own_buffer = (arr.shape[0] + arr.shape[1]) % 2 == 0
+            da = xr.DataArray(np.ascontiguousarray(arr.T) if own_buffer else arr.T, coords=coords, dims=("global", "model"))
         dset = da.to_dataset(name="data")
         if ds.get("weight") is not None:
             w = np.array(ds["weight"], dtype=np.float64)
-            dset["weight"] = (da.dims, w if ds.get("dims_order", "mg") == "mg" else w.T)
+            dset["weight"] = (da.dims, w if ds.get("dims_order", "mg") == "mg" else np.ascontiguousarray(w.T))
         data[ds["label"]] = dset
     scheme = Scheme(
         model=model, parameters=parameters, data=data,
